@@ -582,3 +582,51 @@ Proof.
   - rewrite R1. rewrite <- Llo, <- (Len (nth (k - 1) t [])), col_all. apply row_ok_lemma. exact Hlo.
   - rewrite R1. rewrite <- Lhi, <- (Len (nth k t [])), col_all. apply row_ok_lemma. exact Hhi.
 Qed.
+
+(* ==================================================================== *)
+(* 9. daily assimilation                                                 *)
+
+(* GPHOT >= 0 and MAINT >= 0 when the sunshine duration handed to radia() is not negative (with radiation data the
+   cloud fraction is clamped to [0,1] and no such hypothesis is needed) *)
+Lemma assim_nonneg_lemma (x : as_in (T:=R)) :
+  0 <= as_dgac x -> 0 <= as_dgao x -> 0 < as_dle x -> 0 <= as_trrel x -> 0 <= as_maint_pot x ->
+  (as_rad x = 0 -> 0 <= as_sund x) ->
+  0 <= fst (assim_of x) /\ 0 <= snd (assim_of x) /\
+  (forall aspoo, 0 <= aspoo -> 0 <= fst (assim_of x) + aspoo).
+Proof.
+  intros Hc Ho Hd Ht Hm Hs.
+  assert (HD : 0 <= assim_dtga x).
+  { unfold assim_dtga. rsimp. destruct (RI.eqb_spec (as_rad x) 0) as [E|E].
+    - specialize (Hs E).
+      set (sund := if RI.ltb (as_dle x) (as_sund x) then as_dle x else as_sund x).
+      assert (Hsd : 0 <= sund <= as_dle x).
+      { unfold sund. destruct (RI.ltb_spec (as_dle x) (as_sund x)); lra. }
+      assert (Hq : 0 <= sund / as_dle x <= 1).
+      { split; [unfold Rdiv; apply Rmult_le_pos; [lra|apply Rlt_le, Rinv_0_lt_compat; lra]|].
+        apply (Rmult_le_reg_r (as_dle x)); [lra|]. unfold Rdiv. rewrite Rmult_assoc, Rinv_l by lra. lra. }
+      nra.
+    - decs. rsimp.
+      set (fov0 := (as_drc x - 1000000 * as_rad x * 1) / (8 / 10 * as_drc x)).
+      set (fov1 := if RI.ltb 1 fov0 then 1 else fov0).
+      assert (H1 : fov1 <= 1) by (unfold fov1; destruct (RI.ltb_spec 1 fov0); lra).
+      destruct (RI.ltb_spec fov1 0); nra. }
+  assert (HG : 0 <= assim_dtga x * 30 / 44) by (unfold Rdiv; nra).
+  unfold assim_of. rsimp. set (g0 := assim_dtga x * 30 / 44) in *.
+  set (g1 := if RI.ltb (as_trrel x) (as_vswell x) then g0 * as_trrel x else g0).
+  assert (H1 : 0 <= g1) by (unfold g1; destruct (RI.ltb (as_trrel x) (as_vswell x)); nra).
+  set (mt := if RI.ltb g1 (as_maint_pot x) then g1 else as_maint_pot x).
+  assert (H2 : 0 <= mt) by (unfold mt; destruct (RI.ltb g1 (as_maint_pot x)); lra).
+  cbn [fst snd]. destruct (as_cold x); repeat split; try lra; intros; lra.
+Qed.
+
+(* ... and the hypothesis is needed: a missing-value marker -99.9 h handed on as sunshine duration gives GPHOT < 0 *)
+Lemma assim_negative_witness :
+  let x := {| as_rad := 0; as_sund := -999 / 10; as_dle := 14; as_dgac := 400; as_dgao := 150; as_drc := 1;
+              as_trrel := 1; as_vswell := 1; as_maint_pot := 20; as_cold := false |} in
+  0 <= as_dgac x /\ 0 <= as_dgao x /\ 0 < as_dle x /\ 0 <= as_trrel x /\ 0 <= as_maint_pot x /\ fst (assim_of x) < 0.
+Proof.
+  cbv zeta. unfold assim_of, assim_dtga; cbn [as_rad as_sund as_dle as_dgac as_dgao as_drc as_trrel as_vswell as_maint_pot as_cold].
+  rsimp. repeat (split; [lra|]).
+  destruct (RI.eqb_spec 0 0); [|lra]. destruct (RI.ltb_spec 14 (-999 / 10)); [lra|].
+  destruct (RI.ltb_spec 1 1); [lra|]. cbn [fst]. lra.
+Qed.
